@@ -344,7 +344,7 @@ def run_case(ch: Choices, params: dict) -> dict:
                     rec["shot_offset"] = v
                 elif m == 5:
                     v = ch.rng_int(1, 3, "incr")
-                    if not real and ch.draw(5, "incr_zero") == 0:
+                    if not real and ch.draw(3, "incr_zero") == 0:
                         v = 0     # replay the same shot number (real selene divides by it)
                     new, op = h.with_shot_increment(v), f"with_shot_increment({v})"
                     rec["shot_increment"] = v
